@@ -37,7 +37,10 @@ SVCX = {"esp": (("50", ""), ("esp", "")), "ah": (("51", ""), ("ah", "")), "gre":
         "tcp2021": (("tcp", " range 20 21"), ("tcp", " range ftp-data ftp")),
         "tcp2022": (("tcp", " range 20 22"), ("tcp", " range ftp-data ssh")),
         "tcpgt": (("tcp", " gt 1023"), ("tcp", " gt 1023")), "tcplt": (("tcp", " lt 1024"), ("tcp", " lt 1024")),
-        "udp123": (("udp", " eq 123"), ("udp", " eq ntp")), "udp124": (("udp", " eq 124"), ("udp", " eq 124"))}
+        "udp123": (("udp", " eq 123"), ("udp", " eq ntp")), "udp124": (("udp", " eq 124"), ("udp", " eq 124")),
+        # IOS only: `established` behind the destination (port)
+        "tcpest": (("tcp", " established"), ("tcp", " established")),
+        "tcp80est": (("tcp", " eq 80 established"), ("tcp", " eq www established"))}
 RSVCX = {}
 for _a, (_n, _d) in SVCX.items():
     RSVCX[(_n[0], _n[1].strip())] = _a
